@@ -174,6 +174,13 @@ func checkDiff(events []diffEvent, v1, v2 *tblView, colsEqual bool) (string, str
 	return "", fmt.Sprintf("%d/%d/%d", nAdded, nRemoved, nModified)
 }
 
+func max64(a, b int64) int64 {
+	if a > b {
+		return a
+	}
+	return b
+}
+
 func trunc(sl []string) []string {
 	r := make([]string, len(sl))
 	for i, s := range sl {
@@ -415,6 +422,41 @@ func c04Run(c *fw.Case, env *fw.Env) *fw.Obs {
 		if d.name == "diff(T1,T1)" && len(events) != 0 && err == nil {
 			// already reported by checkDiff as event-for-identical-row; keep an explicit clause
 			o.Ev("self_diff_events", int64(len(events)))
+		}
+	}
+	// one store read fails while the tables are diffed: the caller must hear about it (a diff that silently lacks events
+	// is the alternative), or the events must still be complete
+	if c.Seed%4 == 0 && colsEqual && len(rows1)+len(rows2) > 0 {
+		probe := &mon.Faults{}
+		runDiff(&mon.FaultObjStore{S: db1, F: probe}, &mon.FaultObjStore{S: db2, F: probe}, sum1, sum2)
+		for _, k := range []int64{1 + int64(c.Seed/4)%max64(probe.N, 1), probe.N, probe.N - 1, (probe.N + 1) / 2} {
+			if k < 1 || k > probe.N {
+				continue
+			}
+			f := &mon.Faults{FailAt: k}
+			var events []diffEvent
+			var err error
+			var stuck bool
+			if pn := fw.Catch(func() {
+				events, err, stuck = runDiff(&mon.FaultObjStore{S: db1, F: f}, &mon.FaultObjStore{S: db2, F: f}, sum1, sum2)
+			}); pn != "" {
+				o.Violate("panic/DiffTables/read-error/"+class, "read %d of %d fails: %s", k, probe.N, pn)
+				break
+			}
+			o.Ev("oracle_evaluations", 1)
+			o.Ev("diffs_with_a_failing_read", 1)
+			if stuck {
+				o.Violate("hang/DiffTables/read-error/"+class, "read %d of %d fails and the diff channel is never closed", k, probe.N)
+				break
+			}
+			if err == nil && f.N >= k {
+				if cl, detail := checkDiff(events, v1, v2, true); cl != "" {
+					o.Violate("read-error-swallowed/DiffTables/"+class, "store read %d of %d failed, no error was reported and the events are incomplete: %s (%s)", k, probe.N, cl, detail)
+					break
+				}
+			} else if err != nil {
+				o.Ev("read_errors_reported", 1)
+			}
 		}
 	}
 	if len(rows1) == 0 || len(rows2) == 0 {
